@@ -864,6 +864,28 @@ def fam_components(rng, nest=None, b=None):
     return None if multi else b.schema(b.notes[-1])
 
 
+def fam_component_twice(rng):
+    """one message references the same component more than once: in two sibling groups (the Parties pattern of the FIX schemas), and through
+    two different enclosing components; the expansions are independent, every group gets the component's fields (missed seed C13-2)"""
+    b = Builder(rng, 'component-twice')
+    leaf = 'Party%d' % rng.randrange(10)
+    b.comps.append((leaf, [('f', b.field(), 'Y')] + [('f', b.field(), req(rng)) for _ in range(rng.randrange(0, 3))]))
+    g1 = [('f', b.field(), 'Y'), ('c', leaf, rng.choice(['Y', 'N']))]
+    g2 = [('f', b.field(), 'Y'), ('c', leaf, rng.choice(['Y', 'N']))]
+    b.msg([('f', b.field(), 'Y'), ('g', b.count(), req(rng), g1), ('f', b.field(), req(rng)), ('g', b.count(), req(rng), g2)])
+    # the same leaf below two different wrappers, each wrapper holding it inside its own group
+    w = []
+    for i in range(2):
+        name = 'Wrap%d' % i
+        b.comps.append((name, [('f', b.field(), req(rng)), ('g', b.count(), 'N', [('f', b.field(), 'Y'), ('c', leaf, 'Y')])]))
+        w.append(name)
+    b.msg([('f', b.field(), 'Y'), ('c', w[0], 'Y'), ('c', w[1], rng.choice(['Y', 'N']))])
+    # and an ordinary single use
+    b.msg([('f', b.field(), 'Y'), ('g', b.count(), 'N', [('f', b.field(), 'Y'), ('c', leaf, 'N')])])
+    rng.shuffle(b.comps)
+    return b.schema('component %s used twice in one message' % leaf)
+
+
 def fam_structured(rng):
     """one schema with the deepest structures: groups nested to 4, components nested to 3, shared definitions"""
     b = Builder(rng, 'structured')
@@ -1061,9 +1083,45 @@ def fam_reuse_collision(rng, fixed=None):
     return _reuse(rng, 'reuse-collision', dict(b=b, count=b.count(300 if fixed else None), bodies=bodies), 'members %s and %s collide' % (xs + [x], ys + [y]))
 
 
+def fam_reuse_prefix_collision(rng, fixed=None):
+    """one definition is a proper prefix (in tag order) of the other AND both have the same structural hash: the two extra tags are
+    manufactured with the proved partner formula (hash(P) = hash(P ++ [a, y])); the short definition comes first in half of the schemas"""
+    def _rot(h, v):      # search heuristic only (rothash as in include/fix8/f8utils.hpp); the candidate is confirmed by the proved formula below
+        return (h ^ (h >> 2) ^ (h << 5) ^ (h << 13) ^ v ^ 0x80001801) & 0xffffffff
+    cand = None
+    if fixed:
+        cand = fixed
+    else:
+        for _ in range(3000000):
+            P = sorted(rng.sample(range(11, 400), rng.randrange(1, 4)))
+            a = rng.randrange(max(P) + 1, 3000)
+            h = 0
+            for t in P:
+                h = _rot(h, t)
+            # hash(P ++ [a, y]) = hash(P)  <=>  y = rot(rot(h, a), 0) ^ h
+            y = _rot(_rot(h, a), 0) ^ h
+            if a < y < 65536 and not ({a, y} & set(P)) and not (set(P + [a, y]) & RESERVED):
+                cand = (P, a)
+                break
+    if cand is None:
+        raise RuntimeError('no prefix collision found')
+    P, a = cand
+    y = partner(P[:-1], P + [a], P[-1])
+    tags = P + [a, y]
+    if not (a < y < 65536 and len(set(tags)) == len(tags) and not (set(tags) & RESERVED)):
+        raise RuntimeError('prefix collision candidate %r not confirmed by the partner formula (y = %d)' % (cand, y))
+    b = Builder(rng, 'reuse-prefix-collision')
+    short = [b.field(rng.choice(['INT', 'STRING', 'CHAR', 'PRICE']), '', tag=t) for t in P]
+    extra = [b.field(rng.choice(['INT', 'STRING', 'CHAR', 'PRICE']), '', tag=t) for t in (a, y)]
+    d1 = [('f', f, 'Y' if i == 0 else req(rng)) for i, f in enumerate(short)]
+    d2 = d1 + [('f', f, 'N') for f in extra]
+    bodies = [d1, d2] if fixed or rng.random() < 0.5 else [d2, d1]
+    return _reuse(rng, 'reuse-prefix-collision', dict(b=b, count=b.count(300 if fixed else None), bodies=bodies), 'members %s are a prefix of %s with the same key' % (P, tags))
+
+
 VALID_REUSE = [fam_reuse_identical, fam_reuse_distinct, fam_reuse_overlap, fam_reuse_nested_only, fam_reuse_boundary]
 # equal-key families: the fixed f8c must generate every definition separately (before the fix: known finding group-hash-collision)
-KNOWN_REUSE = [fam_reuse_order, fam_reuse_flag, fam_reuse_component, fam_reuse_collision]
+KNOWN_REUSE = [fam_reuse_order, fam_reuse_flag, fam_reuse_component, fam_reuse_collision, fam_reuse_prefix_collision]
 SAMEKEY_REUSE = KNOWN_REUSE
 
 
